@@ -1117,6 +1117,12 @@ impl<'a, 'b, W: Write> Serializer for &'a mut YamlSerializer<'b, W> {
                 }
             }
         }
+        // A block scalar cannot stand inside a flow collection: there a requested block style
+        // (LitStr / FoldStr) gives way to the quoting logic below.
+        if self.pending_str_style.is_some() && self.in_flow > 0 {
+            self.pending_str_style = None;
+            self.pending_str_from_auto = false;
+        }
         if let Some(style) = self.pending_str_style.take() {
             // Emit block string. If we are a mapping value, YAML requires a space after ':'.
             // Insert it now if pending.
